@@ -10,6 +10,7 @@ import HealSparse.Model.Resolution
 import HealSparse.Props.C04
 import HealSparse.Props.C02
 import HealSparse.Props.C07
+import HealSparse.Lemmas.ApiResolution
 namespace HS
 namespace C15
 
@@ -59,6 +60,763 @@ theorem fracdet_cov_eq_coverage_map (c : Cfg) (vc : VCfg V) (s : State V) (h : I
 /-- non-vacuity: upgrade of a map with shuffled blocks -/
 example : (upgradeMap (V := Int) ⟨3, 0⟩ ⟨-1, fun x => x != -1⟩ ⟨#[2, -1, -1], #[-1, 5, 7]⟩ 1).sp
     = #[-1, -1, 5, 5, 7, 7] := by decide +kernel
+
+end C15
+end HS
+
+/-! ## API level (campaign E5)
+
+The theorems above are about the generic core (`upgradeMap`, `degradeMap`, `fracdetCounts`) on any
+state satisfying `Inv`.  The theorems below are about the API functions themselves — `apiUpgrade`
+(Model/ApiRes.lean), the map `fracdet_map` returns as the driver builds it (`fracdetMap`,
+Lemmas/ApiResolution.lean = `opFracdet`), and their interplay with `apiDegrade` (Props/C07.lean) —
+kinds, sentinels, errors included, for every well-formed map object.
+
+Hypotheses: `upgrade` and fracdet need `m.WF` (fracdet also `m.BlankInvalid`, which `KindOk` gives);
+the theorems that go through `degrade` need `m.Ok`, as Props/C07.lean does. -/
+namespace HS
+namespace C15
+
+open ApiResolution ApiDegrade WFApi C07
+
+/-! ### (1) `upgrade` -/
+
+/-- **errors of `upgrade`, exactly**: `ValueError` iff the target order is not strictly finer
+    (`nside_out ≤ nside_sparse`: "use degrade"); otherwise `NotImplementedError` iff the map is a
+    wide mask or bit-packed; nothing else ever fails (records, booleans, every sentinel are
+    accepted; the storage is never looked at) -/
+theorem api_upgrade_error_iff (m : MapObj) (o : Nat) (e : Err) :
+    apiUpgrade m o = .error e ↔
+      (o ≤ m.spord ∧ e = .value) ∨ (m.spord < o ∧ upgradeRefuses m.kind = true ∧ e = .notImpl) := by
+  rw [apiUpgrade_eq]
+  by_cases h1 : o ≤ m.spord
+  · simp only [h1, ↓reduceIte, Except.error.injEq, true_and]
+    constructor
+    · rintro rfl; exact Or.inl rfl
+    · rintro (h | ⟨h, _⟩)
+      · exact h.symm
+      · omega
+  · simp only [h1, ↓reduceIte, false_and, false_or]
+    have h2 : m.spord < o := by omega
+    cases hk : upgradeRefuses m.kind
+    · simp
+    · simp only [↓reduceIte, Except.error.injEq, h2, true_and]
+      exact eq_comm
+
+theorem api_upgrade_ok_iff (m : MapObj) (o : Nat) :
+    (∃ m', apiUpgrade m o = .ok m') ↔ m.spord < o ∧ upgradeRefuses m.kind = false := by
+  rw [apiUpgrade_eq]
+  by_cases h1 : o ≤ m.spord
+  · simp only [h1, ↓reduceIte, reduceCtorEq, exists_false, false_iff]
+    omega
+  · have h2 : m.spord < o := by omega
+    cases hk : upgradeRefuses m.kind <;> simp [h1, h2]
+
+/-- **`upgrade` at the API level.**  For a well-formed map (`WF` alone), if `m.upgrade(nside_out)`
+    succeeds with `m'`: `m'` is well formed at the same coverage order and the new sparse order,
+    KIND AND SENTINEL ARE THOSE OF `m` (whatever the sentinel — not only the defaults), the
+    `n_valid` cache is cold, the coverage mask is unchanged, and every fine pixel `c` reads what
+    its parent `c >> 2(ordOut - spord)` reads in `m` — value or blank alike. -/
+theorem api_upgrade_spec {m m' : MapObj} {o : Nat} (h : m.WF) (hr : apiUpgrade m o = .ok m') :
+    m'.WF ∧ m'.covord = m.covord ∧ m'.spord = o ∧ m'.kind = m.kind ∧ m'.sent = m.sent ∧
+    m'.view = m.view ∧ m'.cache = none ∧ m.spord < o ∧ apiCovMask m' = apiCovMask m ∧
+    ∀ c, c < 12 * 4 ^ o → m'.abs c = m.abs (c >>> upBits m o) := by
+  obtain ⟨hlt, _, rfl⟩ := apiUpgrade_ok hr
+  obtain ⟨hinv, habs, hcov⟩ := upgrade_view h hlt
+  have hle : m.covord ≤ o := Nat.le_trans h.1 (Nat.le_of_lt hlt)
+  refine ⟨⟨hle, hinv⟩, rfl, rfl, rfl, rfl, rfl, rfl, hlt, ?_, ?_⟩
+  · unfold apiCovMask
+    show List.map _ (List.range (cfgOf m.covord o).ncov) = List.map _ (List.range m.c.ncov)
+    apply List.map_congr_left
+    intro k hk
+    exact hcov k (List.mem_range.1 hk)
+  · intro c hc
+    exact habs c (by rw [cfgOf_npix hle]; exact hc)
+
+/-- `Ok` is preserved as well (`MapObj.Ok = WF ∧ KindOk ∧ SentOK`) -/
+theorem api_upgrade_ok {m m' : MapObj} {o : Nat} (h : m.Ok) (hr : apiUpgrade m o = .ok m') : m'.Ok :=
+  Ok.apiUpgrade h hr
+
+/-- **validity is replicated to exactly the children**: a fine pixel of the result is valid iff
+    its parent is valid in the source -/
+theorem api_upgrade_valid {m m' : MapObj} {o : Nat} (h : m.WF) (hr : apiUpgrade m o = .ok m')
+    (c : Nat) (hc : c < 12 * 4 ^ o) :
+    m'.vc.valid (m'.abs c) = m.vc.valid (m.abs (c >>> upBits m o)) := by
+  obtain ⟨_, _, _, hk, hs, _, _, _, _, habs⟩ := api_upgrade_spec h hr
+  have : m'.vc = m.vc := vc_eq_of hk hs
+  rw [this, habs c hc]
+
+/-- the same, read from the parent: each of the `4^(ordOut - spord)` children of pixel `p` holds
+    the value of `p` -/
+theorem api_upgrade_children {m m' : MapObj} {o : Nat} (h : m.WF) (hr : apiUpgrade m o = .ok m')
+    (p : Nat) (hp : p < m.npix) (c : Nat) (hc : c ∈ childPix m' m.spord p) : m'.abs c = m.abs p := by
+  obtain ⟨hwf', hco, hso, _, _, _, _, hlt, _, habs⟩ := api_upgrade_spec h hr
+  have hsh : c >>> upBits m o = p := by
+    have := mem_childPix.1 hc
+    rw [hso] at this
+    exact this
+  have hc' : c < 12 * 4 ^ o := by
+    have := childPix_lt (m := m') (ordOut := m.spord) (q := p) (by rw [hco]; exact h.1)
+      (by rw [hso]; omega) (by rw [hco, cfgOf_npix h.1]; rw [show m.npix = 12 * 4 ^ m.spord from cfgOf_npix h.1] at hp; exact hp) hc
+    rw [show m'.npix = 12 * 4 ^ m'.spord from cfgOf_npix hwf'.1, hso] at this
+    exact this
+  rw [habs c hc', hsh]
+
+/-- **finer-pixel lookup = lookup in the upgraded map**: `get_values_pix(pixels, nside=finer)`
+    shifts the pixel numbers and reads `m`; it answers — values and `IndexError` alike — what
+    `get_values_pix(pixels)` of the upgraded map answers -/
+theorem api_upgrade_get {m m' : MapObj} {o : Nat} (h : m.WF) (hr : apiUpgrade m o = .ok m')
+    (pix : List Nat) : apiGet m' pix = apiGet m (pix.map (· >>> upBits m o)) := by
+  obtain ⟨hwf', hco, hso, _, _, _, _, hlt, _, habs⟩ := api_upgrade_spec h hr
+  have hn' : m'.npix = 12 * 4 ^ o := by
+    rw [show m'.npix = 12 * 4 ^ m'.spord from cfgOf_npix hwf'.1, hso]
+  have hn : m.npix = 12 * 4 ^ m.spord := cfgOf_npix h.1
+  have hpow : 12 * 4 ^ o = 12 * 4 ^ m.spord * 2 ^ upBits m o := by
+    unfold upBits
+    rw [Nat.pow_mul, show (2 : Nat) ^ 2 = 4 from rfl, Nat.mul_assoc, ← Nat.pow_add]
+    congr 2
+    omega
+  have hiff : ∀ c, c ≥ m'.npix ↔ c >>> upBits m o ≥ m.npix := by
+    intro c
+    rw [hn', hn, hpow, Nat.shiftRight_eq_div_pow, ge_iff_le, ge_iff_le,
+      Nat.le_div_iff_mul_le (Nat.two_pow_pos _)]
+  unfold apiGet
+  have hany : (pix.any fun c => decide (c ≥ m'.npix)) =
+      ((pix.map (· >>> upBits m o)).any fun c => decide (c ≥ m.npix)) := by
+    rw [List.any_map]
+    congr 1
+    funext c
+    simp only [Function.comp_apply]
+    exact decide_eq_decide.2 (hiff c)
+  rw [hany]
+  split
+  · rfl
+  · rename_i hno
+    congr 1
+    rw [List.map_map]
+    apply List.map_congr_left
+    intro c hc
+    simp only [Function.comp_apply]
+    apply habs
+    rw [← hn']
+    apply Nat.lt_of_not_le
+    intro hge
+    apply hno
+    rw [← hany, List.any_eq_true]
+    exact ⟨c, hc, by simpa using hge⟩
+
+/-! ### (2) `degrade ∘ upgrade` -/
+
+/-- **degrade of an upgraded map, every float reduction** (plain maps — floats, integers,
+    booleans; `and`/`or` on integers and `wmean` apart).  Let `u = m.upgrade(o)` and
+    `d = u.degrade(nside_sparse of m, red)`.  Then `d` sits at the resolutions of `m`, its kind is
+    the FLOAT kind of the reduction (`auxDT`: float32 stays, everything else becomes float64) with
+    the default sentinel UNSEEN — NOT the kind and sentinel of `m` when `m` is an integer map or
+    has another sentinel — and pixel `q` holds
+    * where `m` is valid: the nan-reduction of `4^(o - spord)` COPIES of the value of `m`;
+    * where `m` is not valid but covered: the reduction of nothing (`NaN` → UNSEEN for mean,
+      median, std, max, min; `0.0` for sum, `1.0` for prod — VALID pixels that `m` did not have);
+    * outside the coverage: UNSEEN. -/
+theorem api_degrade_upgrade_value {m u d : MapObj} {dt : DT} {o : Nat} {red : String}
+    {w : Option MapObj} (h : m.Ok) (hk : m.kind = .plain dt)
+    (hc : (dt.isInt && isAndOr red) = false) (hnw : (red == "wmean") = false)
+    (hu : apiUpgrade m o = .ok u) (hr : apiDegrade u m.spord red w = .ok d) :
+    d.covord = m.covord ∧ d.spord = m.spord ∧
+    d.kind = .plain (auxDT dt) ∧ d.sent = (auxDT dt).defaultSentinel ∧
+    ∀ q, q < m.npix → d.abs q =
+      if m.vc.valid (m.abs q) then
+        fltOut (auxDT dt) (reduceVals red (List.replicate (4 ^ (o - m.spord)) (m.abs q).numD) [] [])
+      else if covered m.c m.st (q >>> m.c.shift) then fltOut (auxDT dt) (reduceVals red [] [] [])
+      else (auxDT dt).defaultSentinel := by
+  obtain ⟨hwfu, hco, hso, hku, hsu, _, _, hlt, hcm, habs⟩ := api_upgrade_spec h.1 hu
+  have huok : u.Ok := Ok.apiUpgrade h hu
+  have hvc : u.vc = m.vc := vc_eq_of hku hsu
+  have hlt' : m.spord < u.spord := by rw [hso]; exact hlt
+  obtain ⟨_, hsp, hcv, _, _⟩ := api_degrade_layout huok hr
+  have hnpix : m.npix = 12 * 4 ^ m.spord := cfgOf_npix h.1.1
+  obtain ⟨hkd, hsd, _⟩ := api_degrade_float huok (hku.trans hk) hc hnw hlt' hr 0
+    (Nat.mul_pos (by decide) (Nat.pow_pos (by decide)))
+  refine ⟨by rw [hcv, hco]; exact Nat.min_eq_left h.1.1, hsp, hkd, hsd, ?_⟩
+  intro q hq
+  obtain ⟨_, _, hval⟩ := api_degrade_float huok (hku.trans hk) hc hnw hlt' hr q (by rw [← hnpix]; exact hq)
+  have hch : ∀ c, c ∈ childPix u m.spord q → u.abs c = m.abs q :=
+    fun c hc => api_upgrade_children h.1 hu q hq c hc
+  have hcov : covered u.c u.st (q >>> (2 * (m.spord - u.covord))) = covered m.c m.st (q >>> m.c.shift) := by
+    rw [hco]
+    show covered u.c u.st (q >>> m.c.shift) = _
+    have hk' : q >>> m.c.shift < m.c.ncov := covpix_lt m.c q hq
+    have := congrArg (fun l => l[q >>> m.c.shift]?) hcm
+    unfold apiCovMask at this
+    have hnc : u.c.ncov = m.c.ncov := by unfold MapObj.c; rw [hco]; rfl
+    simp only [List.getElem?_map, hnc, List.getElem?_range hk', Option.map_some, Option.some.injEq] at this
+    exact this
+  rw [hval, live_const hch (by rw [hco]; exact h.1.1), validChildren_const hch, hvc, hcov, hso]
+  cases hv : m.vc.valid (m.abs q) with
+  | true => simp
+  | false =>
+    simp only [Bool.false_or, Bool.false_eq_true, if_false]
+
+/-- **max, min: the value comes back EXACTLY** (as the same numeral, in the float kind of the
+    reduction); an invalid pixel comes back UNSEEN -/
+theorem api_degrade_upgrade_maxmin {m u d : MapObj} {dt : DT} {o : Nat} {red : String}
+    {w : Option MapObj} (h : m.Ok) (hk : m.kind = .plain dt) (hred : red = "max" ∨ red = "min")
+    (hu : apiUpgrade m o = .ok u) (hr : apiDegrade u m.spord red w = .ok d) (q : Nat)
+    (hq : q < m.npix) :
+    d.abs q =
+      if m.vc.valid (m.abs q) then fltOut (auxDT dt) (some (.num (m.abs q).numD.1 (m.abs q).numD.2))
+      else (auxDT dt).defaultSentinel := by
+  have hao : isAndOr red = false := by rcases hred with rfl | rfl <;> rfl
+  have hnw : (red == "wmean") = false := by rcases hred with rfl | rfl <;> rfl
+  obtain ⟨_, _, _, _, habs⟩ := api_degrade_upgrade_value h hk (by rw [hao, Bool.and_false]) hnw hu hr
+  rw [habs q hq]
+  have hpos : 0 < 4 ^ (o - m.spord) := Nat.pow_pos (by decide)
+  have hnil : reduceVals red [] [] [] = none := by rcases hred with rfl | rfl <;> rfl
+  rw [hnil, fltOut_none]
+  rcases hred with rfl | rfl
+  · rw [reduce_max_replicate _ _ hpos]; split <;> simp
+  · rw [reduce_min_replicate _ _ hpos]; split <;> simp
+
+/-- **mean, median: the value comes back as the same NUMBER in canonical form** (`normVal`: the
+    model stores dyadics un-normalised, `mean`/`median` return normal forms; on a normalised
+    cell — every cell the library can hold — it is the same cell) -/
+theorem api_degrade_upgrade_mean_median {m u d : MapObj} {dt : DT} {o : Nat} {red : String}
+    {w : Option MapObj} (h : m.Ok) (hk : m.kind = .plain dt) (hred : red = "mean" ∨ red = "median")
+    (hu : apiUpgrade m o = .ok u) (hr : apiDegrade u m.spord red w = .ok d) (q : Nat)
+    (hq : q < m.npix) :
+    d.abs q =
+      if m.vc.valid (m.abs q) then
+        fltOut (auxDT dt) (some (normVal (.num (m.abs q).numD.1 (m.abs q).numD.2)))
+      else (auxDT dt).defaultSentinel := by
+  have hao : isAndOr red = false := by rcases hred with rfl | rfl <;> rfl
+  have hnw : (red == "wmean") = false := by rcases hred with rfl | rfl <;> rfl
+  obtain ⟨_, _, _, _, _, _, _, hlt, _, _⟩ := api_upgrade_spec h.1 hu
+  obtain ⟨_, _, _, _, habs⟩ := api_degrade_upgrade_value h hk (by rw [hao, Bool.and_false]) hnw hu hr
+  rw [habs q hq]
+  have hnil : reduceVals red [] [] [] = none := by rcases hred with rfl | rfl <;> rfl
+  rw [hnil, fltOut_none, four_pow]
+  obtain ⟨g, hg⟩ : ∃ g, 2 * (o - m.spord) = g + 1 := ⟨2 * (o - m.spord) - 1, by omega⟩
+  rcases hred with rfl | rfl
+  · rw [reduce_mean_replicate]; split <;> simp
+  · rw [hg, reduce_median_replicate]; split <;> simp
+
+/-- **THE ROUND TRIP for floating-point maps**: a float map with the default sentinel whose valid
+    cells are normalised and representable in its precision comes back CONTENT-EQUAL under mean,
+    median, max, min: same resolutions, same kind, same sentinel, same value at every pixel -/
+theorem api_degrade_upgrade_roundtrip {m u d : MapObj} {b : Nat} {o : Nat} {red : String}
+    {w : Option MapObj} (h : m.Ok) (hk : m.kind = .plain (.flt b))
+    (hs : m.sent = (DT.flt b).defaultSentinel)
+    (hcell : ∀ q, q < m.npix → m.vc.valid (m.abs q) = true →
+      ∃ n e, m.abs q = .num n e ∧ dyNorm n e = (n, e) ∧ (Val.num n e).fits (.flt b) = true)
+    (hred : red = "mean" ∨ red = "median" ∨ red = "max" ∨ red = "min")
+    (hu : apiUpgrade m o = .ok u) (hr : apiDegrade u m.spord red w = .ok d) :
+    d.covord = m.covord ∧ d.spord = m.spord ∧ d.kind = m.kind ∧ d.sent = m.sent ∧
+    ∀ q, q < m.npix → d.abs q = m.abs q := by
+  have hao : isAndOr red = false := by rcases hred with rfl | rfl | rfl | rfl <;> rfl
+  have hnw : (red == "wmean") = false := by rcases hred with rfl | rfl | rfl | rfl <;> rfl
+  obtain ⟨h1, h2, h3, h4, _⟩ := api_degrade_upgrade_value h hk (by rw [hao, Bool.and_false]) hnw hu hr
+  refine ⟨h1, h2, by rw [h3, hk]; rfl, by rw [h4, hs]; rfl, ?_⟩
+  intro q hq
+  cases hv : m.vc.valid (m.abs q) with
+  | false =>
+    have hsent : m.abs q = m.sent := by
+      unfold MapObj.vc at hv
+      rw [hk] at hv
+      exact eq_of_beq (by simpa [Kind.valid] using hv)
+    have : d.abs q = (auxDT (.flt b)).defaultSentinel := by
+      rcases hred with hred | hred | hred | hred
+      · rw [api_degrade_upgrade_mean_median h hk (Or.inl hred) hu hr q hq, hv]; rfl
+      · rw [api_degrade_upgrade_mean_median h hk (Or.inr hred) hu hr q hq, hv]; rfl
+      · rw [api_degrade_upgrade_maxmin h hk (Or.inl hred) hu hr q hq, hv]; rfl
+      · rw [api_degrade_upgrade_maxmin h hk (Or.inr hred) hu hr q hq, hv]; rfl
+    rw [this, hsent, hs]
+    rfl
+  | true =>
+    obtain ⟨n, e, hne, hnorm, hfit⟩ := hcell q hq hv
+    have hnv : normVal (.num n e) = .num n e := by
+      show Val.num (dyNorm n e).1 (dyNorm n e).2 = _
+      rw [hnorm]
+    have hfo : fltOut (auxDT (.flt b)) (some (.num n e)) = .num n e := by
+      show (if (Val.num n e).fits (.flt b) = true then Val.num n e else .poison) = _
+      rw [if_pos hfit]
+    rcases hred with hred | hred | hred | hred
+    · rw [api_degrade_upgrade_mean_median h hk (Or.inl hred) hu hr q hq, hv, hne]
+      show fltOut _ (some (normVal (.num n e))) = _
+      rw [hnv, hfo]
+    · rw [api_degrade_upgrade_mean_median h hk (Or.inr hred) hu hr q hq, hv, hne]
+      show fltOut _ (some (normVal (.num n e))) = _
+      rw [hnv, hfo]
+    · rw [api_degrade_upgrade_maxmin h hk (Or.inl hred) hu hr q hq, hv, hne]
+      exact hfo
+    · rw [api_degrade_upgrade_maxmin h hk (Or.inr hred) hu hr q hq, hv, hne]
+      exact hfo
+
+/-- **integer maps do NOT come back as they were**: the values return as the same numbers, but
+    in a float64 map whose sentinel is UNSEEN (`outKind_rules`), whatever the integer dtype and
+    sentinel of `m`; an invalid pixel reads UNSEEN, not the sentinel of `m` -/
+theorem api_degrade_upgrade_int {m u d : MapObj} {b : Nat} {sg : Bool} {o : Nat} {red : String}
+    {w : Option MapObj} (h : m.Ok) (hk : m.kind = .plain (.int b sg))
+    (hred : red = "mean" ∨ red = "median" ∨ red = "max" ∨ red = "min")
+    (hu : apiUpgrade m o = .ok u) (hr : apiDegrade u m.spord red w = .ok d) :
+    d.kind = .plain (.flt 64) ∧ d.sent = .num unseen64 0 ∧
+    ∀ q, q < m.npix →
+      (m.vc.valid (m.abs q) = false → d.abs q = .num unseen64 0) ∧
+      (∀ n, m.abs q = .num n 0 → m.vc.valid (m.abs q) = true →
+        d.abs q = fltOut (.flt 64) (some (.num n 0))) := by
+  have hao : isAndOr red = false := by rcases hred with rfl | rfl | rfl | rfl <;> rfl
+  have hnw : (red == "wmean") = false := by rcases hred with rfl | rfl | rfl | rfl <;> rfl
+  obtain ⟨_, _, h3, h4, _⟩ := api_degrade_upgrade_value h hk (by rw [hao, Bool.and_false]) hnw hu hr
+  refine ⟨h3, h4, ?_⟩
+  intro q hq
+  have hnv : ∀ n : Int, normVal (.num n 0) = .num n 0 := fun n => rfl
+  constructor
+  · intro hv
+    rcases hred with hred | hred | hred | hred
+    · rw [api_degrade_upgrade_mean_median h hk (Or.inl hred) hu hr q hq, hv]; rfl
+    · rw [api_degrade_upgrade_mean_median h hk (Or.inr hred) hu hr q hq, hv]; rfl
+    · rw [api_degrade_upgrade_maxmin h hk (Or.inl hred) hu hr q hq, hv]; rfl
+    · rw [api_degrade_upgrade_maxmin h hk (Or.inr hred) hu hr q hq, hv]; rfl
+  · intro n hn hv
+    rcases hred with hred | hred | hred | hred
+    · rw [api_degrade_upgrade_mean_median h hk (Or.inl hred) hu hr q hq, hv, hn]; rfl
+    · rw [api_degrade_upgrade_mean_median h hk (Or.inr hred) hu hr q hq, hv, hn]; rfl
+    · rw [api_degrade_upgrade_maxmin h hk (Or.inl hred) hu hr q hq, hv, hn]; rfl
+    · rw [api_degrade_upgrade_maxmin h hk (Or.inr hred) hu hr q hq, hv, hn]; rfl
+
+/-- **sum, prod, std are NOT the identity on an upgraded map** — what they give, exactly:
+    * `sum`: `4^(o-spord) · value` at a valid pixel, and `0.0` — a VALID pixel `m` did not have —
+      at every covered pixel that is not valid in `m`;
+    * `prod`: `value ^ 4^(o-spord)`, and `1.0` at the covered invalid pixels;
+    * `std`: `0.0` at every valid pixel (a valid value), UNSEEN elsewhere. -/
+theorem api_degrade_upgrade_sum_prod_std {m u d : MapObj} {dt : DT} {o : Nat}
+    {w : Option MapObj} (h : m.Ok) (hk : m.kind = .plain dt) (hu : apiUpgrade m o = .ok u)
+    (q : Nat) (hq : q < m.npix) :
+    (apiDegrade u m.spord "sum" w = .ok d → d.abs q =
+      if m.vc.valid (m.abs q) then
+        fltOut (auxDT dt) (some (normVal (.num (((4 ^ (o - m.spord) : Nat) : Int) * (m.abs q).numD.1)
+          (m.abs q).numD.2)))
+      else if covered m.c m.st (q >>> m.c.shift) then .num 0 0 else (auxDT dt).defaultSentinel) ∧
+    (apiDegrade u m.spord "prod" w = .ok d → d.abs q =
+      if m.vc.valid (m.abs q) then
+        fltOut (auxDT dt) (some (.ofDy (dyPowNat (m.abs q).numD (4 ^ (o - m.spord)))))
+      else if covered m.c m.st (q >>> m.c.shift) then .num 1 0 else (auxDT dt).defaultSentinel) ∧
+    (apiDegrade u m.spord "std" w = .ok d → d.abs q =
+      if m.vc.valid (m.abs q) then .num 0 0 else (auxDT dt).defaultSentinel) := by
+  have hpos : 0 < 4 ^ (o - m.spord) := Nat.pow_pos (by decide)
+  refine ⟨fun hr => ?_, fun hr => ?_, fun hr => ?_⟩
+  · obtain ⟨_, _, _, _, habs⟩ := api_degrade_upgrade_value (red := "sum") h hk
+      (by rw [show isAndOr "sum" = false from rfl, Bool.and_false]) rfl hu hr
+    rw [habs q hq, reduce_sum_replicate _ _ hpos, reduceVals_nil_sum, fltOut_zero]
+    rfl
+  · obtain ⟨_, _, _, _, habs⟩ := api_degrade_upgrade_value (red := "prod") h hk
+      (by rw [show isAndOr "prod" = false from rfl, Bool.and_false]) rfl hu hr
+    rw [habs q hq, reduce_prod_replicate, reduceVals_nil_prod, fltOut_one]
+  · obtain ⟨_, _, _, _, habs⟩ := api_degrade_upgrade_value (red := "std") h hk
+      (by rw [show isAndOr "std" = false from rfl, Bool.and_false]) rfl hu hr
+    rw [habs q hq, reduce_std_replicate _ _ hpos, show reduceVals "std" [] [] [] = none from rfl,
+      fltOut_none, fltOut_zero]
+    split <;> simp
+
+/-! ### (3) fracdet -/
+
+/-- **`fracdet_map` at the API level.**  For a well-formed map whose blank cell is invalid and
+    `covord ≤ ord ≤ spord`, the map `F = fracdetMap m ord` the driver binds is `Ok` (a float64
+    map with sentinel `0.0` at sparse order `ord`), has the coverage mask of `m`, and at every
+    coarse pixel `q` holds the EXACT dyadic `count / 4^(spord-ord)` (`fracCell`), `count` being the
+    number of valid children of `q` in `m`; since the sentinel of a fracdet map is `0.0`, `F` is
+    valid at `q` iff `count > 0` — a COVERED coarse pixel without a valid child reads `0.0` and
+    is NOT valid (validity of `F` is "has a valid child", not "is covered"). -/
+theorem api_fracdet_spec {m : MapObj} (h : m.WF) (hv : m.BlankInvalid) {ord : Nat}
+    (hlo : m.covord ≤ ord) (hhi : ord ≤ m.spord) :
+    (fracdetMap m ord).Ok ∧ apiCovMask (fracdetMap m ord) = apiCovMask m ∧
+    ∀ q, q < 12 * 4 ^ ord →
+      (fracdetMap m ord).abs q = fracCell (fracCount m ord q) (2 * (m.spord - ord)) ∧
+      ((fracdetMap m ord).vc.valid ((fracdetMap m ord).abs q) = true ↔ 0 < fracCount m ord q) := by
+  refine ⟨⟨WF.fracdet_partial h hv hlo hhi, kindOk_plain rfl (fun hd => nomatch hd),
+    MapObj.sentOK_of_plain rfl⟩, ?_, ?_⟩
+  · unfold apiCovMask
+    apply List.map_congr_left
+    intro k hk
+    exact fracdetMap_covered h hlo hhi (List.mem_range.1 hk)
+  · intro q hq
+    refine ⟨fracdetMap_abs h hv hlo hhi hq, ?_⟩
+    rw [fracdetMap_valid h hv hlo hhi hq]
+    simp
+
+/-- what the stored cell means: it is a numeral `a / 2^e` with `a / 2^e = count / 2^g`,
+    `g = 2(spord-ord)`, and `count ≤ 4^(spord-ord)` -/
+theorem api_fracdet_meaning {m : MapObj} (h : m.WF) (hv : m.BlankInvalid) {ord : Nat}
+    (hlo : m.covord ≤ ord) (hhi : ord ≤ m.spord) (q : Nat) (hq : q < 12 * 4 ^ ord) :
+    ∃ a e, (fracdetMap m ord).abs q = .num a e ∧
+      a * 2 ^ (2 * (m.spord - ord)) = (fracCount m ord q : Int) * 2 ^ e ∧
+      fracCount m ord q ≤ 4 ^ (m.spord - ord) := by
+  have := fracdetMap_abs h hv hlo hhi hq
+  exact ⟨_, _, this, fracCell_spec _ _ rfl, fracCount_le m ord q⟩
+
+/-- a covered coarse pixel without any valid child reads `0.0`, the sentinel: not valid -/
+theorem api_fracdet_unset {m : MapObj} (h : m.WF) (hv : m.BlankInvalid) {ord : Nat}
+    (hlo : m.covord ≤ ord) (hhi : ord ≤ m.spord) (q : Nat) (hq : q < 12 * 4 ^ ord)
+    (hnil : validChildren m ord q = []) :
+    (fracdetMap m ord).abs q = .num 0 0 ∧
+      (fracdetMap m ord).vc.valid ((fracdetMap m ord).abs q) = false := by
+  have h0 : fracCount m ord q = 0 := by unfold fracCount; rw [hnil]; rfl
+  obtain ⟨_, _, hpix⟩ := api_fracdet_spec h hv hlo hhi
+  obtain ⟨ha, hval⟩ := hpix q hq
+  refine ⟨by rw [ha, h0, fracCell_zero], ?_⟩
+  rw [Bool.eq_false_iff]
+  intro hc
+  have := hval.1 hc
+  omega
+
+/-- **at the coverage resolution** the fracdet map is the coverage map: `coverage_map[k] · nfine`
+    (the `covmap` observation, `coverageCounts`) is the count the fracdet cell encodes -/
+theorem api_fracdet_at_covord {m : MapObj} (h : m.WF) (hv : m.BlankInvalid) (k : Nat)
+    (hk : k < m.c.ncov) :
+    (coverageCounts m.c m.vc m.st)[k]? = some (fracCount m m.covord k) ∧
+    (fracdetMap m m.covord).abs k = fracCell (fracCount m m.covord k) m.c.shift := by
+  have hk' : k < 12 * 4 ^ m.covord := by
+    have : m.c.ncov = 12 * 4 ^ m.covord := rfl
+    omega
+  refine ⟨?_, fracdetMap_abs h hv (Nat.le_refl _) h.1 hk'⟩
+  rw [fracdet_cov_eq_coverage_map m.c m.vc m.st h.2 hv k hk]
+  congr 1
+  have hq : k < (C02.fracCfg m.c m.c.shift).npix := by
+    simp [C02.fracCfg, Cfg.npix, Cfg.nfine, hk]
+  rw [fracdet_eq m.c m.vc m.st h.2 hv m.c.shift (Nat.le_refl _) k hq]
+  exact filter_range_children m m.covord k
+
+/-- **at the map's own resolution** the fracdet map is the indicator of validity -/
+theorem api_fracdet_at_spord {m : MapObj} (h : m.WF) (hv : m.BlankInvalid) (p : Nat)
+    (hp : p < m.npix) :
+    (fracdetMap m m.spord).abs p = if m.vc.valid (m.abs p) then .num 1 0 else .num 0 0 := by
+  have hp' : p < 12 * 4 ^ m.spord := by rw [← cfgOf_npix h.1]; exact hp
+  rw [fracdetMap_abs h hv h.1 (Nat.le_refl _) hp', fracCount_self, Nat.sub_self]
+  cases m.vc.valid (m.abs p) <;> rfl
+
+/-- **additivity**: the count at order `o` is the sum of the counts of the four children at
+    order `o+1` … -/
+theorem api_fracdet_additive {m : MapObj} {o : Nat} (ho : o < m.spord) (q : Nat) :
+    fracCount m o q = fracCount m (o + 1) (4 * q) + fracCount m (o + 1) (4 * q + 1) +
+      fracCount m (o + 1) (4 * q + 2) + fracCount m (o + 1) (4 * q + 3) :=
+  fracCount_add ho q
+
+/-- … hence **the fracdet value at order `o` is the MEAN of the four children's fracdet values at
+    order `o+1`** — numpy's plain mean over ALL FOUR of them, zeros included (contrast
+    `api_degrade_fracdet` below) -/
+theorem api_fracdet_mean {m : MapObj} (h : m.WF) (hv : m.BlankInvalid) {o : Nat}
+    (hlo : m.covord ≤ o) (ho : o < m.spord) (q : Nat) (hq : q < 12 * 4 ^ o) :
+    reduceVals "mean" ((List.range 4).map fun i => ((fracdetMap m (o + 1)).abs (4 * q + i)).numD) [] []
+      = some ((fracdetMap m o).abs q) := by
+  have hq4 : ∀ i, i < 4 → 4 * q + i < 12 * 4 ^ (o + 1) := by
+    intro i hi; rw [Nat.pow_succ]; omega
+  have e : ∀ i, i < 4 → ((fracdetMap m (o + 1)).abs (4 * q + i)).numD
+      = dyNorm (fracCount m (o + 1) (4 * q + i) : Int) (2 * (m.spord - (o + 1))) := by
+    intro i hi
+    rw [fracdetMap_abs h hv (by omega) (by omega) (hq4 i hi)]
+    rfl
+  have hl : (List.range 4).map (fun i => ((fracdetMap m (o + 1)).abs (4 * q + i)).numD) =
+      [dyNorm (fracCount m (o + 1) (4 * q) : Int) (2 * (m.spord - (o + 1))),
+       dyNorm (fracCount m (o + 1) (4 * q + 1) : Int) (2 * (m.spord - (o + 1))),
+       dyNorm (fracCount m (o + 1) (4 * q + 2) : Int) (2 * (m.spord - (o + 1))),
+       dyNorm (fracCount m (o + 1) (4 * q + 3) : Int) (2 * (m.spord - (o + 1)))] := by
+    simp only [List.range_succ, List.range_zero, List.nil_append, List.cons_append, List.map_cons,
+      List.map_nil]
+    rw [e 0 (by decide), e 1 (by decide), e 2 (by decide), e 3 (by decide)]
+    rfl
+  rw [hl, mean4, fracdetMap_abs h hv hlo (by omega) hq, fracCount_add ho q]
+  have hg : 2 * (m.spord - (o + 1)) + 2 = 2 * (m.spord - o) := by omega
+  rw [hg]
+  unfold fracCell
+  push_cast
+  rfl
+
+/-! #### degrading a fracdet map is NOT the fracdet map at the coarser resolution
+
+The docstring of `fracdet_map` says: "To get a fracdet_map at a lower resolution, use the degrade
+method with the default 'mean' reduction."  `degrade` masks the pixels that hold the sentinel —
+for a fracdet map that is `0.0`, i.e. exactly the pixels with NO valid sub-pixel — so its mean
+runs over the NON-ZERO children only and over-estimates the fraction whenever a child is empty;
+and the result has the sentinel UNSEEN instead of `0.0`.  (Evaluated counterexample below; checked
+on the real library: one valid pixel at nside 32 gives `fracdet_map(16)[0] = 0.25`,
+`fracdet_map(8)[0] = 0.0625`, but `fracdet_map(16).degrade(8)[0] = 0.25`.) -/
+
+/-- what `degrade(mean)` of the fracdet map at order `o+1` gives at order `o`: a float64 map with
+    sentinel UNSEEN (not `0.0`); a coarse pixel none of whose four children has a valid sub-pixel
+    reads UNSEEN; any other holds the mean over the children WITH a valid sub-pixel only -/
+theorem api_degrade_fracdet {m d : MapObj} (h : m.WF) (hv : m.BlankInvalid) {o : Nat}
+    (hlo : m.covord ≤ o) (ho : o < m.spord) {w : Option MapObj}
+    (hr : apiDegrade (fracdetMap m (o + 1)) o "mean" w = .ok d) (q : Nat) (hq : q < 12 * 4 ^ o) :
+    d.kind = .plain (.flt 64) ∧ d.sent = .num unseen64 0 ∧
+    (validChildren (fracdetMap m (o + 1)) o q = [] → d.abs q = .num unseen64 0) ∧
+    (validChildren (fracdetMap m (o + 1)) o q ≠ [] → d.abs q =
+      fltOut (.flt 64) (reduceVals "mean"
+        ((validChildren (fracdetMap m (o + 1)) o q).map fun c => ((fracdetMap m (o + 1)).abs c).numD)
+        [] [])) ∧
+    ∀ c, c ∈ validChildren (fracdetMap m (o + 1)) o q ↔
+      c ∈ childPix (fracdetMap m (o + 1)) o q ∧ 0 < fracCount m (o + 1) c := by
+  have hF := (api_fracdet_spec h hv (ord := o + 1) (by omega) (by omega))
+  have hlt : o < (fracdetMap m (o + 1)).spord := Nat.lt_succ_self o
+  obtain ⟨hkd, hsd, _⟩ := api_degrade_float (dt := .flt 64) (red := "mean") hF.1 rfl rfl rfl hlt hr q hq
+  obtain ⟨h1, h2⟩ := api_degrade_masked (dt := .flt 64) (red := "mean") hF.1 rfl
+    (by simp [maskedReds]) hlt hr q hq
+  have key : ∀ c, c ∈ childPix (fracdetMap m (o + 1)) o q → c < 12 * 4 ^ (o + 1) := by
+    intro c hc
+    have := childPix_lt (m := fracdetMap m (o + 1)) (ordOut := o) (q := q) hlo (Nat.le_succ o)
+      (by show q < (cfgOf m.covord o).npix; rw [cfgOf_npix hlo]; exact hq) hc
+    rw [show (fracdetMap m (o + 1)).npix = 12 * 4 ^ (o + 1) from
+      cfgOf_npix (show m.covord ≤ o + 1 by omega)] at this
+    exact this
+  refine ⟨hkd, hsd, ?_, h2, ?_⟩
+  · intro hnil
+    rw [(h1 hnil).1, plain_sentinel hkd, hsd]
+    rfl
+  · intro c
+    unfold validChildren
+    rw [List.mem_filter]
+    constructor
+    · rintro ⟨hc, hval⟩
+      refine ⟨hc, ?_⟩
+      have hc' := key c hc
+      exact ((hF.2.2 c hc').2).1 hval
+    · rintro ⟨hc, hpos⟩
+      refine ⟨hc, ?_⟩
+      have hc' := key c hc
+      exact ((hF.2.2 c hc').2).2 hpos
+
+/-- **`…_partial`: degrading the fracdet map agrees with the coarser fracdet map exactly where
+    EVERY one of the four children has a valid sub-pixel** (then the masked mean is the plain
+    mean); up to the representability of the value in float64 (`fltOut`) -/
+theorem api_degrade_fracdet_partial {m d : MapObj} (h : m.WF) (hv : m.BlankInvalid) {o : Nat}
+    (hlo : m.covord ≤ o) (ho : o < m.spord) {w : Option MapObj}
+    (hr : apiDegrade (fracdetMap m (o + 1)) o "mean" w = .ok d) (q : Nat) (hq : q < 12 * 4 ^ o)
+    (hall : ∀ i, i < 4 → 0 < fracCount m (o + 1) (4 * q + i)) :
+    d.abs q = fltOut (.flt 64) (some ((fracdetMap m o).abs q)) := by
+  obtain ⟨_, _, _, h2, hmem⟩ := api_degrade_fracdet h hv hlo ho hr q hq
+  have hcp := childPix_four (fracdetMap m (o + 1)) o q rfl
+  have hvc : validChildren (fracdetMap m (o + 1)) o q = (List.range 4).map fun i => 4 * q + i := by
+    rw [← hcp]
+    unfold validChildren
+    rw [List.filter_eq_self]
+    intro c hc
+    have := (hmem c).2 ⟨hc, by
+      rw [hcp] at hc
+      obtain ⟨i, hi, rfl⟩ := List.mem_map.1 hc
+      exact hall i (List.mem_range.1 hi)⟩
+    exact (List.mem_filter.1 this).2
+  rw [h2 (by rw [hvc]; simp), hvc, List.map_map]
+  have := api_fracdet_mean h hv hlo ho q hq
+  rw [show ((fun c => ((fracdetMap m (o + 1)).abs c).numD) ∘ fun i => 4 * q + i)
+    = fun i => ((fracdetMap m (o + 1)).abs (4 * q + i)).numD from rfl, this]
+
+/-! ### (4) consistency of `degrade` with fracdet -/
+
+/-- **where a degraded map is valid**: for a plain map and a masked reduction (mean, median, std,
+    max, min), `covord ≤ ord < spord`: coarse pixel `q` of the result is valid iff the fracdet map
+    is positive there (`q` has a valid child) AND the reduced value is not UNSEEN itself (the
+    result's sentinel; see the example below: a map with another sentinel may hold UNSEEN as a
+    valid value) -/
+theorem api_degrade_valid_iff {m d : MapObj} {dt : DT} {ord : Nat} {red : String}
+    {w : Option MapObj} (h : m.Ok) (hk : m.kind = .plain dt) (hred : red ∈ maskedReds)
+    (hlo : m.covord ≤ ord) (hlt : ord < m.spord) (hr : apiDegrade m ord red w = .ok d) (q : Nat)
+    (hq : q < 12 * 4 ^ ord) :
+    d.vc.valid (d.abs q) = true ↔
+      (fracdetMap m ord).vc.valid ((fracdetMap m ord).abs q) = true ∧
+      fltOut (auxDT dt) (reduceVals red ((validChildren m ord q).map fun p => (m.abs p).numD) [] [])
+        ≠ (auxDT dt).defaultSentinel := by
+  have hao : isAndOr red = false := by
+    simp only [maskedReds, List.mem_cons, List.not_mem_nil, or_false] at hred
+    rcases hred with rfl | rfl | rfl | rfl | rfl <;> rfl
+  have hnw : (red == "wmean") = false := by
+    simp only [maskedReds, List.mem_cons, List.not_mem_nil, or_false] at hred
+    rcases hred with rfl | rfl | rfl | rfl | rfl <;> rfl
+  obtain ⟨hkd, hsd, _⟩ := api_degrade_float h hk (by rw [hao, Bool.and_false]) hnw hlt hr q hq
+  obtain ⟨h1, h2⟩ := api_degrade_masked h hk hred hlt hr q hq
+  have hF := ((api_fracdet_spec h.1 h.2.1.blankInvalid hlo (Nat.le_of_lt hlt)).2.2 q hq).2
+  rw [hF, fracCount_pos_iff]
+  have hvalid : ∀ x, d.vc.valid x = (x != (auxDT dt).defaultSentinel) := by
+    intro x; unfold MapObj.vc; rw [hkd, hsd]; rfl
+  by_cases hnil : validChildren m ord q = []
+  · rw [(h1 hnil).2]
+    simp [hnil]
+  · rw [h2 hnil, hvalid]
+    simp [hnil]
+
+/-- one direction needs no proviso: **a valid pixel of the degraded map has positive fracdet** -/
+theorem api_degrade_valid_fracdet {m d : MapObj} {dt : DT} {ord : Nat} {red : String}
+    {w : Option MapObj} (h : m.Ok) (hk : m.kind = .plain dt) (hred : red ∈ maskedReds)
+    (hlo : m.covord ≤ ord) (hlt : ord < m.spord) (hr : apiDegrade m ord red w = .ok d) (q : Nat)
+    (hq : q < 12 * 4 ^ ord) (hval : d.vc.valid (d.abs q) = true) :
+    (fracdetMap m ord).vc.valid ((fracdetMap m ord).abs q) = true :=
+  ((api_degrade_valid_iff h hk hred hlo hlt hr q hq).1 hval).1
+
+/-! ### the protocol driver -/
+
+/-- `fracdet m r=… ord=…` inside the permitted range answers `ok` and binds `r` to `fracdetMap m ord`
+    (the object of `api_fracdet_spec`); outside it answers `err ValueError` and stores nothing -/
+theorem op_fracdet {w : World} {a : Args} {n : String} {rest : List String} {m : MapObj}
+    {r : String} {ord : Nat} (hpos : a.pos = n :: rest) (hget : w.get? n = some m)
+    (hr : a.get? "r" = some r) (ho : a.nat? "ord" = some ord) :
+    (m.covord ≤ ord → ord ≤ m.spord →
+      (opFracdet w a).2 = "ok" ∧ (opFracdet w a).1.get? r = some (fracdetMap m ord)) ∧
+    (ord > m.spord ∨ ord < m.covord → opFracdet w a = (w, errLine .value)) := by
+  rw [opFracdet_eq w a n rest m r ord hpos hget hr ho]
+  constructor
+  · intro hlo hhi
+    rw [if_neg (by omega)]
+    exact ⟨rfl, get?_bind_self _ _ _⟩
+  · intro hbad
+    rw [if_pos hbad]
+
+/-- `upg m ord=… r=…`: on success the `r=` name reads the map of `api_upgrade_spec` (owning its
+    storage); on an error nothing is stored -/
+theorem op_upg {w : World} {a : Args} {n : String} {rest : List String} {m : MapObj} {ord : Nat}
+    (hpos : a.pos = n :: rest) (hget : w.get? n = some m) (ho : a.nat? "ord" = some ord) :
+    (∀ u, apiUpgrade m ord = .ok u →
+      (opUpg w a).2 = "ok" ∧ (opUpg w a).1.get? (a.getD "r" "tmp") = some { u with view := none }) ∧
+    (∀ e, apiUpgrade m ord = .error e → opUpg w a = (w, errLine e)) := by
+  rw [opUpg_eq w a n rest m ord hpos hget ho]
+  constructor
+  · intro u hu
+    rw [hu]
+    exact ⟨rfl, get?_bind_self _ _ _⟩
+  · intro e he
+    rw [he]
+
+
+/-! ### non-vacuity and counterexamples (API level) -/
+
+/-- an int16 map with the NON-DEFAULT sentinel 7 (12 coverage pixels × 4 cells; coverage pixel 2
+    allocated but empty): pixels 4 ↦ 3, 5 ↦ -2, 40 ↦ 9 -/
+def exInt16 : Except Err MapObj := do
+  let m ← apiMakeEmpty 0 1 (.plain (.int 16 true)) (some (.num 7 0)) [2]
+  apiUpdate m "replace" [4, 5, 40] (some [.num 3 0, .num (-2) 0, .num 9 0]) false
+
+/-- a float64 map (default sentinel; 12 × 16 cells; coverage pixel 3 allocated but empty):
+    pixels 0 ↦ 2.5, 5 ↦ 7.0, 21 ↦ 0.25, 100 ↦ -3.0 -/
+def exFloat : Except Err MapObj := do
+  let m ← apiMakeEmpty 0 2 (.plain (.flt 64)) none [3]
+  apiUpdate m "replace" [0, 5, 21, 100] (some [.num 5 1, .num 7 0, .num 1 2, .num (-3) 0]) false
+
+def isErr {α : Type} (r : Except Err α) (e : Err) : Bool :=
+  match r with
+  | .error e' => e' == e
+  | .ok _ => false
+
+/-- (1) `upgrade` of the int16 map by one order: `Ok`, kind int16 and the sentinel 7 kept, coverage
+    mask kept, every child reads its parent (value or the sentinel 7), the finer lookup agrees;
+    errors: same or coarser order `ValueError` (also for a wide mask: the order check comes first),
+    wide mask / bit-packed `NotImplementedError`; a record map is accepted -/
+example : okAnd exInt16 (fun m => decide m.Ok && okAnd (apiUpgrade m 2) (fun u =>
+      decide u.Ok && u.kind == m.kind && u.sent == .num 7 0 && u.spord == 2 && u.covord == 0 &&
+      apiCovMask u == apiCovMask m &&
+      (List.range 192).all (fun c => u.abs c == m.abs (c >>> 2)) &&
+      u.abs 16 == .num 3 0 && u.abs 19 == .num 3 0 && u.abs 20 == .num (-2) 0 && u.abs 24 == .num 7 0 &&
+      (match apiGet u [16, 23, 160], apiGet m [4, 5, 40] with
+       | .ok a, .ok b => a == b | _, _ => false) &&
+      isErr (apiGet u [192]) .index) &&
+      isErr (apiUpgrade m 1) .value && isErr (apiUpgrade m 0) .value) = true ∧
+    okAnd (apiMakeEmpty 0 1 (.wide 2) none []) (fun m =>
+      isErr (apiUpgrade m 2) .notImpl && isErr (apiUpgrade m 1) .value) = true ∧
+    okAnd (apiMakeEmpty 0 2 .packed none []) (fun m => isErr (apiUpgrade m 3) .notImpl) = true ∧
+    okAnd (apiMakeEmpty 0 1 (.recd [.int 16 true, .flt 64] 0) none []) (fun m =>
+      okAnd (apiUpgrade m 2) (fun u => decide u.Ok && u.kind == m.kind)) = true := by
+  decide +kernel
+
+/-- (2) `degrade ∘ upgrade` on the float64 map: mean, median, max, min give the map back —
+    same kind, same sentinel, same value at EVERY pixel (`api_degrade_upgrade_roundtrip`) -/
+example : okAnd exFloat (fun m => decide m.Ok && okAnd (apiUpgrade m 3) (fun u =>
+      ["mean", "median", "max", "min"].all (fun red => okAnd (apiDegrade u 2 red none) (fun d =>
+        d.kind == m.kind && d.sent == m.sent && d.covord == m.covord && d.spord == m.spord &&
+        (List.range m.npix).all (fun q => d.abs q == m.abs q))))) = true := by
+  decide +kernel
+
+/-- (2) … on the int16 map with sentinel 7: the numbers come back, but in a FLOAT64 map with
+    sentinel UNSEEN; an unset pixel reads UNSEEN, not 7.  `sum` gives `4·value` and turns the
+    covered unset pixels 6 and 8 into VALID zeros; `prod` gives `value⁴` and ones; `std` gives
+    `0.0` at every valid pixel (`api_degrade_upgrade_sum_prod_std`) -/
+example : okAnd exInt16 (fun m => okAnd (apiUpgrade m 2) (fun u =>
+      okAnd (apiDegrade u 1 "mean" none) (fun d =>
+        d.kind == .plain (.flt 64) && d.sent == .num unseen64 0 &&
+        d.abs 4 == .num 3 0 && d.abs 5 == .num (-2) 0 && d.abs 40 == .num 9 0 &&
+        d.abs 6 == .num unseen64 0 && m.abs 6 == .num 7 0 && d.abs 0 == .num unseen64 0) &&
+      okAnd (apiDegrade u 1 "sum" none) (fun d =>
+        d.abs 4 == .num 12 0 && d.abs 5 == .num (-8) 0 && d.abs 6 == .num 0 0 &&
+        d.vc.valid (d.abs 6) && !m.vc.valid (m.abs 6) && d.abs 8 == .num 0 0 &&
+        d.abs 0 == .num unseen64 0) &&
+      okAnd (apiDegrade u 1 "prod" none) (fun d =>
+        d.abs 4 == .num 81 0 && d.abs 5 == .num 16 0 && d.abs 6 == .num 1 0) &&
+      okAnd (apiDegrade u 1 "std" none) (fun d =>
+        d.abs 4 == .num 0 0 && d.vc.valid (d.abs 4) && d.abs 6 == .num unseen64 0))) = true := by
+  decide +kernel
+
+/-- (3) the fracdet maps of the float64 map (`spord = 2`): at order 1 pixels 0, 1, 5 hold `1/4`
+    and the covered empty ones `0.0` (NOT valid); at order 0 (= coverage order) pixel 0 holds
+    `2/16 = 1/8`, pixels 1 and 6 `1/16`, and `coverage_map·nfine` is `[2, 1, 0, …, 1, …]`; at
+    order 2 the indicator of validity; all three are `Ok` with the coverage mask of `m`
+    (coverage pixel 3 is covered and reads `0.0`) -/
+example : okAnd exFloat (fun m => decide m.WF && decide m.BlankInvalid &&
+      decide (fracdetMap m 1).Ok && decide (fracdetMap m 0).Ok && decide (fracdetMap m 2).Ok &&
+      apiCovMask (fracdetMap m 1) == apiCovMask m &&
+      (fracdetMap m 1).abs 0 == .num 1 2 && (fracdetMap m 1).abs 1 == .num 1 2 &&
+      (fracdetMap m 1).abs 5 == .num 1 2 && (fracdetMap m 1).abs 2 == .num 0 0 &&
+      !(fracdetMap m 1).vc.valid ((fracdetMap m 1).abs 2) && (fracdetMap m 1).abs 12 == .num 0 0 &&
+      (fracdetMap m 0).abs 0 == .num 1 3 && (fracdetMap m 0).abs 1 == .num 1 4 &&
+      (fracdetMap m 0).abs 6 == .num 1 4 && (fracdetMap m 0).abs 3 == .num 0 0 &&
+      decide ((coverageCounts m.c m.vc m.st).take 7 = [2, 1, 0, 0, 0, 0, 1]) &&
+      (fracdetMap m 2).abs 5 == .num 1 0 && (fracdetMap m 2).abs 6 == .num 0 0 &&
+      decide (fracCount m 0 0 = 2) && decide (fracCount m 1 0 = 1) && decide (fracCount m 1 1 = 1)) = true := by
+  decide +kernel
+
+/-- (3) **COUNTEREXAMPLE to the docstring of `fracdet_map`** ("to get a fracdet_map at a lower
+    resolution, use the degrade method with the default mean reduction"): degrading the order-1
+    fracdet map of the float64 map to order 0 gives `1/4` at pixels 0, 1 and 6, where the fracdet
+    map at order 0 holds `1/8`, `1/16`, `1/16`; and UNSEEN (sentinel UNSEEN) where it holds `0.0` -/
+example : okAnd exFloat (fun m => okAnd (apiDegrade (fracdetMap m 1) 0 "mean" none) (fun d =>
+      d.abs 0 == .num 1 2 && (fracdetMap m 0).abs 0 == .num 1 3 &&
+      d.abs 1 == .num 1 2 && (fracdetMap m 0).abs 1 == .num 1 4 &&
+      d.abs 6 == .num 1 2 && (fracdetMap m 0).abs 6 == .num 1 4 &&
+      d.abs 3 == .num unseen64 0 && (fracdetMap m 0).abs 3 == .num 0 0 &&
+      d.sent == .num unseen64 0)) = true := by
+  decide +kernel
+
+/-- (3) … while it agrees where every child is non-empty (`api_degrade_fracdet_partial`): a map
+    with one valid pixel in each of the four order-1 children of order-0 pixel 0 -/
+example : okAnd (do let m ← apiMakeEmpty 0 2 (.plain (.flt 64)) none []
+                    apiUpdate m "replace" [0, 4, 9, 15] (some [.num 1 0]) true) (fun m =>
+      okAnd (apiDegrade (fracdetMap m 1) 0 "mean" none) (fun d =>
+        d.abs 0 == .num 1 2 && (fracdetMap m 0).abs 0 == .num 1 2 &&
+        (List.range 4).all (fun i => decide (0 < fracCount m 1 i)))) = true := by
+  decide +kernel
+
+/-- (4) the proviso of `api_degrade_valid_iff` is needed: a float64 map with sentinel `0.0` holding
+    UNSEEN as a VALID value at pixel 0: the fracdet map is positive at coarse pixel 0 (`1/4`), the
+    degraded (mean) map holds UNSEEN there — its own sentinel — and is not valid; on the float64
+    map above the two agree everywhere -/
+example : okAnd (do let m ← apiMakeEmpty 0 1 (.plain (.flt 64)) (some (.num 0 0)) []
+                    apiUpdate m "replace" [0] (some [.num unseen64 0]) false) (fun m =>
+      decide m.Ok && m.vc.valid (m.abs 0) && (fracdetMap m 0).abs 0 == .num 1 2 &&
+      okAnd (apiDegrade m 0 "mean" none) (fun d =>
+        d.abs 0 == .num unseen64 0 && !d.vc.valid (d.abs 0))) = true ∧
+    okAnd exFloat (fun m => okAnd (apiDegrade m 1 "mean" none) (fun d =>
+      (List.range 48).all (fun q =>
+        d.vc.valid (d.abs q) == (fracdetMap m 1).vc.valid ((fracdetMap m 1).abs q)))) = true := by
+  decide +kernel
+
+/-! the protocol driver (evaluated): `upg`, `deg`, `fracdet`, `covmap`, finer lookup `get … nsord=` -/
+
+def resBase : List String :=
+  ["cfg m kind=plain dtype=f8 covord=0 spord=2 covpix=3", "upd m pix=0,5,21,100 vals=5^1,7,1^2,-3"]
+
+def resAns (h : List String) (q : String) : String := (step (runLines h) q).2
+
+#guard resAns (resBase ++ ["upg m ord=3 r=u"]) "get u pix=0,3,4,20,23,84,400"
+    == resAns resBase "get m pix=0,3,4,20,23,84,400 nsord=3"
+#guard resAns (resBase ++ ["upg m ord=3 r=u", "deg u ord=2 red=mean r=d"]) "dump d" == resAns resBase "dump m"
+#guard resAns resBase "upg m ord=2 r=u" == "err ValueError"
+#guard resAns (resBase ++ ["fracdet m r=f ord=0"]) "get f pix=0,1,2,3,6" == "1^3,1^4,0,0,1^4"
+#guard resAns resBase "covmap m" == "2,1,0,0,0,0,1,0,0,0,0,0"
+#guard resAns (resBase ++ ["fracdet m r=f ord=0"]) "valid f" == "0,1,6"
+#guard resAns (resBase ++ ["fracdet m r=f ord=1", "deg f ord=0 red=mean r=g"]) "get g pix=0,1,6" == "1^2,1^2,1^2"
+#guard resAns resBase "fracdet m r=f ord=3" == "err ValueError"
 
 end C15
 end HS
